@@ -241,6 +241,12 @@ impl WebSocketClient {
         self.inner.next_id.fetch_add(1, Ordering::Relaxed)
     }
 
+    /// Number of entries in the pending map (verification hook).
+    #[cfg(feature = "verif-hooks")]
+    pub fn verif_pending_len(&self) -> usize {
+        lock_pending_map(&self.inner.pending).len()
+    }
+
     pub async fn call_json<P: AsRef<str>, T: Serialize>(
         &self,
         path: P,
